@@ -98,6 +98,18 @@ def tree_from_paths(paths):
     return build_tree(paths, {})
 
 
+# simulator ids carry a prefix that cannot be mistaken for a word of the message, so the named cycle is found in
+# the error text whatever its wording (e.g. "[<SimRunner sid='Sim_A'>, ...]" or "Sim_A -> Sim_B -> Sim_A")
+SID_PREFIX = "Sim_"
+
+
+def named_path(msg):
+    path = re.findall(re.escape(SID_PREFIX) + r"([A-Za-z0-9]+)", msg)
+    if len(path) >= 1 and path[0] != path[-1]:
+        path = path + [path[0]]          # a cycle listed by its members without repeating the first one
+    return path
+
+
 def run_graph(case, until=0):
     """case: {'paths': {sid: path}, 'edges': [[src, dst, kind, dattr]]} -> (outcome, message, stepped)"""
     from mvf import simple_sim
@@ -114,7 +126,7 @@ def run_graph(case, until=0):
         def build(t):
             for ch in t:
                 if isinstance(ch, str):
-                    ents[ch] = w.start("Meta", sim_id=ch, meta=META).M.create(1)[0]
+                    ents[ch] = w.start("Meta", sim_id=SID_PREFIX + ch, meta=META).M.create(1)[0]
                 else:
                     with w.group():
                         build(ch)
@@ -193,7 +205,7 @@ def check_graph(case):
         fails.append(Failure("C06.rejected_resolved", "C06.rejected_resolved",
                              f"every cycle is resolved (or there is none) but run() raised: {msg[:200]}; {case}"))
     elif unres and outcome == "rejected":
-        path = re.findall(r"sid='([^']+)'", msg)
+        path = named_path(msg)
         ok, why = walk_unresolved(path, edges, groups)
         if not ok:
             fails.append(Failure("C06.named_cycle", "C06.named_cycle",
